@@ -86,7 +86,8 @@ def phase_b(res, pid, mn, patch, checks, tier):
     sh("git checkout -- . && git clean -fdq tests/ examples/", cwd=WT)
     sh(["git", "apply", patch], cwd=WT)
     HS, TG = WT + "_h", WT + "_target"
-    sh("rsync -a --delete --exclude target /verif/harness/ %s/ && sed -i 's#path = \"/repo\"#path = \"%s\"#' %s/Cargo.toml && sed -i 's#target-dir = \"/verif/target\"#target-dir = \"%s\"#' %s/.cargo/config.toml" % (HS, WT, HS, TG, HS))
+    # the harness as committed (not the working tree, which may be in the middle of an edit)
+    sh("rm -rf %s && mkdir -p %s && git -C /verif archive HEAD harness | tar -x -C %s --strip-components=1 && cp -n /repo/Cargo.lock %s/Cargo.lock; sed -i 's#path = \"/repo\"#path = \"%s\"#' %s/Cargo.toml && sed -i 's#target-dir = \"/verif/target\"#target-dir = \"%s\"#' %s/.cargo/config.toml" % (HS, HS, HS, HS, WT, HS, TG, HS))
     res.setdefault("checks", {})
     try:
         for c in checks:
